@@ -2118,7 +2118,11 @@ impl<'a, E: quiver_core::effects::Effect> Compiler<'a, E> {
 
             // If complement narrowing is valid, compute the complement for the exhaustiveness
             // check and (for non-last branches) accumulate it to narrow subsequent branches.
-            if let Some((prov, original, narrowed)) = narrowing.take() {
+            // A condition that is statically nil fails for every input: its failure says
+            // nothing about the test it may contain, so it contributes no complement.
+            if !self.is_nil(condition_type)
+                && let Some((prov, original, narrowed)) = narrowing.take()
+            {
                 // This branch narrowed structurally (its narrowing wasn't disabled by a value
                 // requirement), so it faithfully covers its guard. Record the guard so the
                 // uncovered region can be computed as the complement of these — never the
